@@ -20,6 +20,7 @@ void harness(void){
     for(unsigned i=0;i<SIZE;i++){ isnull[i]=in_bool(); OLD[i].index=i; OLD[i].conn=c->conn; OLD[i].connp=c; assert(htp_list_push(c->conn->transactions,isnull[i]?NULL:&OLD[i])==HTP_OK); }
     size_t onx=in_size_le(SIZE+1); c->out_next_tx_index=onx;
 #if FUNC==1   /* htp_connp_tx_create */
+    if(SIZE>0 && in_bool()) c->out_tx=&OLD[0];     /* a response may or may not be in progress */
     int mt=(int)in_range(0,4)-0; cfg->max_tx=mt; unsigned fl0=in_bool()?HTP_CONN_PIPELINED:0; c->conn->flags=fl0;
     htp_tx_t *tx=htp_connp_tx_create(c);
     if(mt>0 && SIZE>(unsigned)mt){ assert(tx==NULL); assert(htp_list_size(c->conn->transactions)==SIZE); }       /* C10: never more than max_tx+1 transactions */
